@@ -7,6 +7,7 @@ accepted value is pinned. Only pint's *parser* (unit expression -> {canonical na
 is used to read a unit label.
 """
 import math
+import re
 from fractions import Fraction
 
 DIMS = ("cm", "g", "s", "K", "A")
@@ -111,6 +112,92 @@ OSYRIS_CATALOGUE = {
 
 class UnknownUnit(Exception):
     pass
+
+
+# spelling -> canonical name, for the unit strings the checks write themselves: what a string means is decided here, not by
+# asking the library's parser (whose answer is then compared with this one)
+SYMBOLS = {
+    "": "dimensionless", "1": "dimensionless", "dimensionless": "dimensionless",
+    "percent": "percent", "ppm": "ppm", "rad": "radian", "radian": "radian", "deg": "degree", "degree": "degree",
+    "cm": "centimeter", "mm": "millimeter", "m": "meter", "km": "kilometer", "au": "astronomical_unit", "pc": "parsec",
+    "kpc": "kiloparsec", "ly": "light_year", "R_sun": "solar_radius", "R_sol": "solar_radius", "R_earth": "earth_radius",
+    "R_jup": "jupiter_radius", "in": "inch",
+    "g": "gram", "kg": "kilogram", "M_sun": "solar_mass", "M_sol": "solar_mass", "M_earth": "earth_mass", "M_jup": "jupiter_mass",
+    "s": "second", "ms": "millisecond", "min": "minute", "hr": "hour", "day": "day", "yr": "year", "kyr": "kiloyear", "Myr": "megayear",
+    "K": "kelvin", "mK": "millikelvin", "eV": "electron_volt", "keV": "kiloelectron_volt",
+    "dyn": "dyne", "N": "newton", "erg": "erg", "J": "joule", "W": "watt", "Pa": "pascal", "Ba": "barye", "Hz": "hertz",
+    "L_sun": "solar_luminosity", "L_sol": "solar_luminosity", "L_bol0": "bolometric_luminosity", "ar": "radiation_constant",
+    "G": "gauss", "mG": "milligauss", "statV": "statvolt", "Fr": "franklin", "T": "tesla", "A": "ampere", "C": "coulomb", "V": "volt",
+    "F": "farad", "ohm": "ohm", "Wb": "weber", "H": "henry",
+}
+SYMBOLS.update({name: name for name in TABLE})
+
+_TOKEN = re.compile(r"\s*(\*\*|\*|/|\(|\)|-?\d+(?:\.\d+)?|[A-Za-z_][A-Za-z_0-9]*)")
+
+
+def parse(expr):
+    """A unit string of the grammar  term (('*' | '/' | ' ') term)*,  term = name ['**' number] | '1'  ->  {canonical name: exponent},
+    or None when the string uses anything else (the caller then has no independent reading of it). Products and quotients associate
+    to the left, as in Python; white space between two terms is a product."""
+    toks, pos = [], 0
+    expr = expr.strip()
+    while pos < len(expr):
+        m = _TOKEN.match(expr, pos)
+        if not m:
+            return None
+        toks.append(m.group(1))
+        pos = m.end()
+    out = {}
+    i, sign = 0, 1
+    expect_term = True
+    if not toks:
+        return {}
+    while i < len(toks):
+        t = toks[i]
+        if expect_term:
+            if t in ("*", "/", "**", "(", ")"):
+                return None
+            if re.fullmatch(r"-?\d+(?:\.\d+)?", t):
+                if float(t) != 1.0:
+                    return None
+                name = None
+            else:
+                if t not in SYMBOLS:
+                    return None
+                name = SYMBOLS[t]
+            exp = Fraction(1)
+            if i + 1 < len(toks) and toks[i + 1] == "**":
+                if i + 2 >= len(toks) or not re.fullmatch(r"-?\d+(?:\.\d+)?", toks[i + 2]):
+                    return None
+                exp = Fraction(toks[i + 2])
+                i += 2
+            if name is not None and name != "dimensionless":
+                out[name] = out.get(name, Fraction(0)) + sign * exp
+            expect_term = False
+            i += 1
+        else:
+            if t == "*":
+                sign = 1
+                i += 1
+            elif t == "/":
+                sign = -1
+                i += 1
+            elif t in ("**", "(", ")"):
+                return None
+            else:
+                sign = 1  # white space: a product
+            expect_term = True
+    if expect_term:
+        return None
+    return {k: v for k, v in out.items() if v != 0}
+
+
+def info_of_string(expr):
+    """(scale, dims, tol) of a unit string read by parse(), or None."""
+    cont = parse(expr)
+    if cont is None:
+        return None
+    return unit_info(cont)
 
 
 def unit_info(unit):
